@@ -626,6 +626,137 @@ pub fn kvs_with_verifier(seed: u64, worker: usize, slot: &Slot) {
     let _ = std::fs::remove_dir_all(&dir);
 }
 
+////////////////////////////////// snapshot point under three roles ////////////////////////////////
+
+/// C06 / C07 rider with three roles, which `kvs-linz` (2-3 symmetric clients, 2-5 operations)
+/// reaches only rarely: a *batch writer* rewrites the same four keys with one id per batch, a
+/// *fast writer* puts other keys (so that it can finish while a batch is still being inserted),
+/// and a *reader* opens scans.  Every scan must show the four batch keys with one and the same
+/// id (atomic visibility of a batch, C06), ids never go backwards between scans of one reader
+/// (real-time order, C06), and a cursor that is held and listed again shows exactly what it
+/// showed the first time (stable snapshot, C07).
+pub fn kvs_batch_snapshot(seed: u64, worker: usize, slot: &Slot) {
+    let mut rng = Rng::new(seed);
+    let dir = fresh_dir(worker, "bsnap");
+    let o: Vec<(&str, String)> = vec![
+        ("--memtable-size-bytes", rng.pick(&[0u64, 64, 1 << 20, 1 << 20]).to_string()),
+        ("--sst-cache-bytes", "65536".into()),
+    ];
+    let kvs = Arc::new(KeyValueStore::open(options(&dir, &o)).unwrap_or_else(|e| violation("open-error", format!("{e}"))));
+    // cooperative fault point: one of the writes (whichever arrives n-th) is slow at one site
+    let stall = if rng.chance(3, 4) {
+        let site = *rng.pick(&["write:seq-assigned", "write:log-appended", "write:memtable-inserted"]);
+        let arrival = rng.below(6) as i64;
+        let yields = *rng.pick(&[300u64, 3000]);
+        kvs.verif().set_stall(site, arrival, yields);
+        format!("{site}#{arrival}x{yields}")
+    } else {
+        "none".to_string()
+    };
+    let daemons = start_daemons(&kvs, 1);
+    let nb = rng.range(2, 5);
+    let completed_batches = Arc::new(AtomicU64::new(0));
+    let started_batches = Arc::new(AtomicU64::new(0));
+    let opened_with_batch_in_flight = Arc::new(AtomicU64::new(0));
+    let batch_writer = {
+        let kvs = Arc::clone(&kvs);
+        let completed = Arc::clone(&completed_batches);
+        let started = Arc::clone(&started_batches);
+        thread::spawn(move || {
+            for i in 1..=nb {
+                let mut wb = WriteBatch::with_capacity(4);
+                for j in 0..4u8 {
+                    wb.put(&[b'b', b'0' + j], &value(i, 16));
+                }
+                started.fetch_add(1, Ordering::SeqCst);
+                kvs.write(wb).unwrap_or_else(|e| violation("write-error", format!("{e}")));
+                completed.fetch_add(1, Ordering::SeqCst);
+            }
+        })
+    };
+    let n_fast = rng.range(1, 2);
+    let mut fast = Vec::new();
+    for t in 0..n_fast {
+        let kvs = Arc::clone(&kvs);
+        let n = rng.range(2, 8);
+        fast.push(thread::spawn(move || {
+            for i in 0..n {
+                kvs.put(&[b'x', b'0' + t as u8, b'0' + (i % 3) as u8], &value(1000 + i, 16)).unwrap_or_else(|e| violation("put-error", format!("{e}")));
+            }
+        }));
+    }
+    let scans = Arc::new(AtomicU64::new(0));
+    let mixed_seen = Arc::new(AtomicU64::new(0));
+    let reader = {
+        let kvs = Arc::clone(&kvs);
+        let scans = Arc::clone(&scans);
+        let n = rng.range(2, 6);
+        let hold = rng.chance(1, 2);
+        let completed = Arc::clone(&completed_batches);
+        let started = Arc::clone(&started_batches);
+        let in_flight_at_open = Arc::clone(&opened_with_batch_in_flight);
+        thread::spawn(move || {
+            let mut last_id = 0u64;
+            for _ in 0..n {
+                let lo: Bound<Vec<u8>> = Bound::Included(vec![b'b']);
+                let hi: Bound<Vec<u8>> = Bound::Excluded(vec![b'c']);
+                let mut c = kvs.range_scan(&lo, &hi).unwrap_or_else(|e| violation("scan-open-error", format!("{e}")));
+                if started.load(Ordering::SeqCst) > completed.load(Ordering::SeqCst) {
+                    in_flight_at_open.fetch_add(1, Ordering::SeqCst);
+                }
+                let first = listing(&mut c).unwrap_or_else(|e| violation("scan-error", e));
+                scans.fetch_add(1, Ordering::SeqCst);
+                let ids: Vec<u64> = first.iter().map(|(_, v)| value_id(v)).collect();
+                if !(ids.is_empty() || (ids.len() == 4 && ids.iter().all(|i| *i == ids[0]))) {
+                    violation("scan-shows-part-of-a-batch", format!("one snapshot lists the batch keys as {:?}", short(&first)));
+                }
+                if let Some(id) = ids.first() {
+                    if *id < last_id {
+                        violation("scan-goes-back-in-time", format!("batch id {id} after {last_id}"));
+                    }
+                    last_id = *id;
+                }
+                if hold {
+                    // hold the cursor until the batch writer has completed another batch (or
+                    // gives no sign of life): a batch in flight at the open lands meanwhile
+                    let at_open = completed.load(Ordering::SeqCst);
+                    for _ in 0..400 {
+                        if completed.load(Ordering::SeqCst) > at_open {
+                            break;
+                        }
+                        thread::sleep(std::time::Duration::ZERO);
+                    }
+                    let again = listing(&mut c).unwrap_or_else(|e| violation("held-cursor-error", e));
+                    if again != first {
+                        violation("held-cursor-contents-changed", format!("listed {:?} when opened, {:?} later", short(&first), short(&again)));
+                    }
+                }
+            }
+        })
+    };
+    let mut ok = batch_writer.join().is_ok();
+    for f in fast {
+        ok &= f.join().is_ok();
+    }
+    ok &= reader.join().is_ok();
+    if !ok {
+        violation("client-panicked", "a client thread panicked".into());
+    }
+    let work = kvs.verif().work_done();
+    stop_daemons(&kvs, daemons, "");
+    let mut r = slot.lock().unwrap();
+    r.order_hash = rng::mix(&[seed, work, scans.load(Ordering::SeqCst), mixed_seen.load(Ordering::SeqCst)]);
+    r.nontrivial = scans.load(Ordering::SeqCst) > 0;
+    r.steps = scans.load(Ordering::SeqCst) + nb;
+    *r.probes.entry("batch_snapshot_scans".into()).or_insert(0) += scans.load(Ordering::SeqCst);
+    *r.probes.entry("batch_snapshot_scans_opened_with_a_batch_in_flight".into()).or_insert(0) += opened_with_batch_in_flight.load(Ordering::SeqCst);
+    *r.probes.entry(format!("batch_snapshot_stall_{}", stall.split('#').next().unwrap_or("none"))).or_insert(0) += 1;
+    r.sample = Some(serde_json::json!({"batches": nb, "fast_writers": n_fast, "slow_writer": stall, "options": o.iter().map(|(k, v)| format!("{k}={v}")).collect::<Vec<_>>()}));
+    drop(r);
+    drop(kvs);
+    let _ = std::fs::remove_dir_all(&dir);
+}
+
 /////////////////////////////////////// soak: reads under a free-running store /////////////////////
 
 /// C01 / C03 rider: the histories seqsim explores have background work placed between client
